@@ -196,6 +196,33 @@ def census(fn: ast.FunctionDef, dc) -> list[tuple]:
     fresh_all = fresh_locals(fn, dc)
     out = []
 
+    # Named temporaries for a part of a container (`items = pre[rule]["items"][key][op]; items.append(x)`): a local
+    # that is bound exactly once, to an access chain, stands for that chain - the write is classified exactly as
+    # if the chain had been written out, so introducing or removing such a temporary does not change the census.
+    store_count: dict = {}
+    for n in all_nodes_with_nested(fn):
+        if isinstance(n, ast.Name) and isinstance(n.ctx, ast.Store):
+            store_count[n.id] = store_count.get(n.id, 0) + 1
+    aliases: dict = {}
+    for n in all_nodes_with_nested(fn):
+        if isinstance(n, ast.Assign) and len(n.targets) == 1 and isinstance(n.targets[0], ast.Name) \
+                and isinstance(n.value, (ast.Subscript, ast.Attribute)):
+            name = n.targets[0].id
+            r, pth = access(n.value)
+            if name not in ps and store_count.get(name) == 1 and r is not None and r != name \
+                    and (r in ps or r == "self" or r in fresh_all or store_count.get(r) == 1):
+                aliases[name] = (r, pth)
+
+    def acc(e):
+        root, path = access(e)
+        for _ in range(6):
+            if root in aliases:
+                r2, p2 = aliases[root]
+                root, path = r2, p2 + path
+            else:
+                break
+        return root, path
+
     def cls_of(root, fresh_now):
         if root is None:
             return "X"
@@ -225,7 +252,7 @@ def census(fn: ast.FunctionDef, dc) -> list[tuple]:
                     block(n.body, set())          # a nested function: nothing is known to be fresh
                     continue
                 if isinstance(n, ast.Call) and isinstance(n.func, ast.Attribute) and n.func.attr in MUTATORS:
-                    root, path = access(n.func.value)
+                    root, path = acc(n.func.value)
                     if not (root == "self" and path == ()):      # self.method(...) is not a container mutation
                         out.append((cls_of(root, fresh_now), path, n.func.attr, n.lineno))
                 todo.extend(ast.iter_child_nodes(n))
@@ -238,7 +265,7 @@ def census(fn: ast.FunctionDef, dc) -> list[tuple]:
                 for t0 in tl:
                     for t in targets(t0):
                         if isinstance(t, (ast.Subscript, ast.Attribute)):
-                            root, path = access(t)
+                            root, path = acc(t)
                             out.append((cls_of(root, fresh_now), path,
                                         "aug" if isinstance(st, ast.AugAssign) else "set", st.lineno))
                 scan_expr_nodes([st], fresh_now)
@@ -250,7 +277,7 @@ def census(fn: ast.FunctionDef, dc) -> list[tuple]:
             elif isinstance(st, ast.Delete):
                 for t in st.targets:
                     if isinstance(t, (ast.Subscript, ast.Attribute)):
-                        root, path = access(t)
+                        root, path = acc(t)
                         out.append((cls_of(root, fresh_now), path, "del", st.lineno))
             elif isinstance(st, (ast.FunctionDef, ast.AsyncFunctionDef)):
                 block(st.body, set())
